@@ -143,7 +143,19 @@ func bc46Cases() []bc46Case {
 	a4 := []byte{1, 2, 3, 4, 4, 3, 2, 1, 0x30, 0x39, 0x01, 0xbb} // 1.2.3.4:12345 -> 4.3.2.1:443
 	a6 := append(append(append([]byte{}, net.ParseIP("2001:db8::1").To16()...), net.ParseIP("2001:db8::2").To16()...), 0x30, 0x39, 0x01, 0xbb)
 	aunix := make([]byte, 216)
-	for _, tlv := range [][]byte{nil, {0x04, 0x00, 0x00}, {0x04, 0x00, 0x04, 0, 0, 0, 0}} {
+	// TLV tails: none, empty NOOP, 4-byte NOOP, and NOOP TLVs whose total size sits around the sizes that
+	// matter to readers (64; 255/256/257 = one-byte counters and small fixed buffers; 1000; 1800 = with the largest address block still
+	// under the configured 2048-byte header limit)
+	noop := func(total int) []byte {
+		t := make([]byte, total)
+		t[0] = 0x04
+		binary.BigEndian.PutUint16(t[1:3], uint16(total-3))
+		for i := 3; i < total; i++ {
+			t[i] = byte(i)
+		}
+		return t
+	}
+	for _, tlv := range [][]byte{nil, {0x04, 0x00, 0x00}, {0x04, 0x00, 0x04, 0, 0, 0, 0}, noop(64), noop(255), noop(256), noop(257), noop(1000), noop(1800)} {
 		n := len(tlv)
 		add(bc46Case{id: fmt.Sprintf("v2/PROXY/TCP4/tlv%d", n), wire: bc46V2(0x21, 0x11, a4, tlv), wantSrc: "1.2.3.4:12345", wantDst: "4.3.2.1:443"})
 		add(bc46Case{id: fmt.Sprintf("v2/PROXY/TCP6/tlv%d", n), wire: bc46V2(0x21, 0x21, a6, tlv), wantSrc: "[2001:db8::1]:12345", wantDst: "[2001:db8::2]:443"})
@@ -196,5 +208,5 @@ func TestBoundedC46Proxy(t *testing.T) {
 	for _, id := range ids {
 		fmt.Printf("BOUNDED-FAIL id=%s :: %s\n", strings.ReplaceAll(id, " ", "_"), fails[id])
 	}
-	fmt.Printf("BOUNDED-CASES n=%d distinct=%d bound=v1: TCP4/TCP6 over 2 address pairs x 3x3 ports, UNKNOWN short/long, 8 malformed lines; v2: PROXY/LOCAL x UNSPEC/TCP4/TCP6/UNIX x 3 TLV tails, 4 malformed + 5 truncations; 5 header-less streams; each with 4 payloads\n", len(cases), len(cases))
+	fmt.Printf("BOUNDED-CASES n=%d distinct=%d bound=v1: TCP4/TCP6 over 2 address pairs x 3x3 ports, UNKNOWN short/long, 8 malformed lines; v2: PROXY/LOCAL x UNSPEC/TCP4/TCP6/UNIX x 9 TLV tails (0..1800 bytes), 4 malformed + 5 truncations; 5 header-less streams; each with 4 payloads\n", len(cases), len(cases))
 }
